@@ -210,3 +210,12 @@ PROPS['C16'] = {
     'assumptions': H_ASSUME,
     'bounds': {'quick': '<=3 listeners, <=2 wrapped, depth 4, 1 nested action per step', 'thorough': 'depth 5-6, 2 nested actions per step'},
 }
+
+PROPS['C12'] = {
+    'title': 'Filters and canContinueInvoking gate every dispatch, synchronous or queued',
+    'level': 'model_checking',
+    'parts': [{'src': 'harness/filters.cpp', 'prefix': 'C12/', 'variants': ['g17'], 'quick_variants': ['g17O0'], 'defs': ['VERIF_SUB=%d' % i]} for i in range(5)],
+    'rule': 'BFS over histories on EventDispatcher/EventQueue with MixinFilter (prototypes taking arguments by value, by mutable reference, by const reference; one and two mixins): appendFilter {pass, block, add-1, block-if-arg==1}, removeFilter, appendListener/removeListener on 2 events, dispatch / enqueue+process/processOne with v in {0,1,2}; the model predicts the exact sequence of filter and listener calls and the value each sees; plus complete enumerations of finite input domains: canContinueInvoking (<=3 listeners of 3 kinds x start value x CallbackList/EventDispatcher), HeterEventDispatcher+MixinHeterFilter (filter kinds x removal x values), conditionalFunctor (4 condition kinds incl. stateful x 5 values) and argumentAdapter (int->long, double->int, Base&->Derived&, shared_ptr<Base>->shared_ptr<Derived>; all three factory overloads)',
+    'assumptions': H_ASSUME + ['HeterEventQueue + MixinHeterFilter is not a configuration that compiles on this tree (PrototypeList is private in HeterEventQueueBase), and MixinHeterFilter only compiles for arguments whose lvalue type equals the filter prototype; neither is ranged over'],
+    'bounds': {'quick': '<=3 filters, <=2 listeners, <=2 pending, depth 4-5', 'thorough': 'depth 6-7'},
+}
